@@ -4,7 +4,7 @@ R4 tracks blocks held in local variables.  Blocks reached through a path (`LUfac
 `SUPERLU_FREE(LUfactors->L)`; a later statement of the same list that still mentions the very same path (same canonical text, roots not
 reassigned in between) dereferences or re-releases freed memory: `SUPERLU_FREE(h->L); Destroy_SuperNode_Matrix(h->L);`.  Syntactic must-alias
 only (identical path text), so every report is definite."""
-from ..facts import strip, callee_name, canon, loc, root_ref
+from ..facts import strip, callee_name, canon, loc, root_ref, const_value
 from ..ir import pretty
 
 FREES = {'superlu_free', 'free'}
@@ -48,4 +48,78 @@ def run(chk, cid, prog, cfgname, units_prefix=('SRC/', 'FORTRAN/', 'EXAMPLE/')):
                     chk.violate(cid, '%s:use-after-release:%s' % (f.name, pretty(arg)[:40]), loc(f, bad), f.name,
                                 '`%s` is released at line %d and `%s` still uses it afterwards (the path is not reassigned in between)'
                                 % (pretty(arg)[:40], st.line or s0.line, pretty(bad)[:60]), cfgname=cfgname)
+    return n
+
+
+ALLOCS = {'superlu_malloc', 'malloc', 'calloc', 'intMalloc', 'int32Malloc', 'intCalloc', 'int32Calloc', 'floatMalloc', 'floatCalloc',
+          'doubleMalloc', 'doubleCalloc', 'complexMalloc', 'complexCalloc', 'doublecomplexMalloc', 'doublecomplexCalloc',
+          'singlecomplexMalloc', 'singlecomplexCalloc'}
+
+
+def field_held_rule(chk, cid, prog, cfgname, units_prefix=('SRC/',), floor=4):
+    """A block that a status-returning routine parks in a field of a caller-owned structure (`Glu->expanders = SUPERLU_MALLOC(..)`) is the
+    routine's to release whenever it does not report success: the caller sees a non-zero status (a size answer for lwork == -1, or a
+    failure) and never runs the epilogue that would release the field.  Must-analysis over the CFG: at every return whose value is not the
+    constant 0, on every path from the allocating store, a release of that very path has been executed."""
+    chk.clause(cid, 'a block parked in a caller-owned structure is released on every return that does not report success')
+    n = 0
+    for f in prog.all_funcs():
+        if not f.unit.startswith(units_prefix) or f.rtype is None or f.rtype.strip() == 'void':
+            continue
+        pids = {pid for (_, pid, _) in f.params}
+        sites = []
+        for a in f.body.walk():
+            if a.k == 'Assign' and a.a['op'] == '=' and strip(a.c[0]).k == 'Member':
+                r = root_ref(a.c[0])
+                rhs = strip(a.c[1])
+                if r is not None and r.a.get('id') in pids and rhs.k == 'Call' and callee_name(rhs) in ALLOCS:
+                    sites.append(a)
+        if not sites:
+            continue
+        cfg = prog.cfg(f)
+        for a in sites:
+            path = canon(a.c[0])
+            n += 1
+            chk.saw(unit=f.unit, func=f.unit + ':' + f.name)
+            # state: None = not allocated yet, 'held', 'freed'; join: held wins (may-held)
+            IN = {cfg.entry.id: None}
+            work = [cfg.entry.id]
+            bad = []
+            nret = 0
+            order = {None: 0, 'freed': 1, 'held': 2}
+            seen_ret = set()
+            while work:
+                nid = work.pop()
+                node = cfg.nodes[nid]
+                st = IN[nid]
+                if node.ast is not None and node.kind in ('stmt', 'cond', 'return', 'switch'):
+                    for x in node.ast.walk():
+                        if x is a:
+                            st = 'held'
+                        elif x.k == 'Call' and callee_name(x) in FREES and len(x.c) == 2 and canon(x.c[1]) == path and st == 'held':
+                            st = 'freed'
+                    if node.kind == 'return' and st == 'held':
+                        v = const_value(node.ast.c[0]) if node.ast.c else None
+                        if v != 0 and nid not in seen_ret:
+                            seen_ret.add(nid)
+                            bad.append(node.ast)
+                for (s, lab) in node.succ:
+                    if s not in IN:
+                        IN[s] = st
+                        work.append(s)
+                    elif order[st] > order[IN[s]]:
+                        IN[s] = st
+                        work.append(s)
+            nret = sum(1 for nd in cfg.nodes if nd.kind == 'return' and IN.get(nd.id) is not None)
+            inst = '%s:%s:parked:%s' % (f.unit, f.name, pretty(a.c[0])[:40])
+            if not bad:
+                chk.ok(cid, inst, sample='%d returns reachable after the allocation; all that are not `return 0` release it first' % nret)
+            for r in sorted(bad, key=lambda r: r.line)[:3]:
+                chk.violate(cid, '%s:parked-block-not-released:%s@%s' % (f.name, pretty(a.c[0])[:40], pretty(r)[:50].replace(' ', '')), loc(f, r), f.name,
+                            '`%s` (line %d) may still hold its block at `%s` (line %d), which does not report success: the caller returns on the non-zero '
+                            'status without the epilogue that releases it, so the block is lost'
+                            % (pretty(a.c[0]), a.line, pretty(r)[:70], r.line), cfgname=cfgname)
+    if n < floor:
+        from ..run import AnalysisBroken
+        raise AnalysisBroken('%s: %d parked allocations found, floor %d' % (cid, n, floor))
     return n
